@@ -115,7 +115,11 @@ func verifCompareState(t *Buffer, s *bytes.Buffer) {
 func VerifH_BufferDifferential() {
 	var t *Buffer
 	var s *bytes.Buffer
-	switch symx.Concrete(symx.Int("ctor"), 0, 3) {
+	maxCtor := 3
+	if symx.Param("prefix", 0) == 1 {
+		maxCtor = 0 // the read prefix below builds the contents
+	}
+	switch symx.Concrete(symx.Int("ctor"), 0, maxCtor) {
 	case 0:
 		t, s = &Buffer{}, &bytes.Buffer{}
 	case 1:
@@ -131,6 +135,29 @@ func VerifH_BufferDifferential() {
 		symx.Assert(t.Len() == 0 && t.Cap() >= n, "NewSizedBuffer yields an empty buffer of at least the requested capacity")
 	}
 	verifCompareState(t, s)
+	if symx.Param("prefix", 0) == 1 {
+		// histories that start after a successful read (read offset > 0, a remembered last read): three
+		// arbitrary bytes are written and one read of a symbolic kind is made on both buffers first
+		pre := symx.Bytes("pre", 3)
+		t.Write(pre)
+		s.Write(pre)
+		switch symx.Concrete(symx.Int("preRead"), 0, 2) {
+		case 0:
+			c1, e1 := t.ReadByte()
+			c2, e2 := s.ReadByte()
+			symx.Assert(c1 == c2, "ReadByte value")
+			verifErrSame(e1, e2, "ReadByte")
+		case 1:
+			r1, z1, e1 := t.ReadRune()
+			r2, z2, e2 := s.ReadRune()
+			symx.Assert(r1 == r2 && z1 == z2, "ReadRune value and size")
+			verifErrSame(e1, e2, "ReadRune")
+		case 2:
+			d1, d2 := t.Next(1), s.Next(1)
+			symx.Assert(len(d1) == len(d2) && (len(d1) == 0 || d1[0] == d2[0]), "Next data")
+		}
+		verifCompareState(t, s)
+	}
 	steps := symx.Param("steps", 2)
 	afterGrow := false
 	for st := 0; st < steps; st++ {
